@@ -25,6 +25,14 @@ OffsetOf(recs, r) == CHOOSE o \in 0..Len(File(recs)) : File(recs)[o + 1] = <<"b"
 IndexRow(recs, r) == [length |-> recs[r].L, offset |-> OffsetOf(recs, r), lenc |-> recs[r].W, lenb |-> recs[r].W + 1]
 Substring(r, a, b) == [i \in 1..(b - a) |-> <<"b", r, a + i - 1>>]
 
+\* the same offsets by arithmetic on the record descriptors alone (no bytes): usable for files of any size;
+\* TLC checks OffsetsAgree against the byte-level definition on every small configuration
+RecSize(rec) == 1 + rec.hdr + 1 + rec.L + ((rec.L + rec.W - 1) \div rec.W)        \* '>' header newline, bases, one newline per line
+RECURSIVE SizeBefore(_, _)
+SizeBefore(rs, r) == IF r = 1 THEN 0 ELSE SizeBefore(rs, r - 1) + RecSize(rs[r - 1])
+OffsetArith(rs, r) == SizeBefore(rs, r) + 1 + rs[r].hdr + 1
+IndexRowArith(rs, r) == [length |-> rs[r].L, offset |-> OffsetArith(rs, r), lenc |-> rs[r].W, lenb |-> rs[r].W + 1]
+
 \* ---- L1: byte arithmetic of get_interval_sequences (:176-200) and _get_interval_sequences_fast (:132-160)
 Read(f, from, n) == SubSeq(f, from + 1, IF from + n <= Len(f) THEN from + n ELSE Len(f))     \* seek + read
 DeleteAt(s, D) == LET keep == {i \in DOMAIN s : (i - 1) \notin D}
@@ -65,6 +73,7 @@ FetchAny == \E r \in DOMAIN recs : \E a \in 0..(recs[r].L - 1) : \E b \in (a + 1
 Next == WholeAny \/ FetchAny
 Spec == Init /\ [][Next]_vars
 
+OffsetsAgree == \A r \in DOMAIN recs : IndexRowArith(recs, r) = IndexRow(recs, r)
 FetchCorrect == /\ last.op = "fetch" => last.got = Substring(last.r, last.a, last.b)
                 /\ last.op = "whole" => last.got = Substring(last.r, 0, recs[last.r].L)
 \* the property restricted to what can be fetched without touching the unterminated end of the file
